@@ -116,7 +116,9 @@ class Mix(Scenario):
                 it = by_tag[tag_of(p)]
                 if it.pub == 'raise':
                     raise AppRaise('handler raises ' + it.tag)
-                pub = self._publisher(w, it, side, 'd', it.down, it.ending)
+                if it.pub == 'nonenone':
+                    return None, None  # handler neither sends nor listens
+                pub = None if it.pub == 'none' else self._publisher(w, it, side, 'd', it.down, it.ending)
                 sub = RecSubscriber(w, side, 'rsub' + it.tag,
                                     request_on_subscribe=(MAXN if it.credit == 'max' else 1))
                 if it.credit == 'one':
